@@ -158,6 +158,14 @@ func runC11(r *rt.Run, tier string) {
 		model = append([]mPara{{Fields: []mField{{Name: "-Dash-Field", Lines: []string{"- dashed value"}}}}}, model...)
 		r.Probe("dash-escaped-line")
 	}
+	if t.Bool(1, 5, "c11.dashmid") {
+		// a dash-escaped line that is not the first line of the signed text, its
+		// dash followed by a blank (the escaped form is "- - ..."): what is parsed
+		// is the text that was signed, dash and blank included
+		text = append([]byte("Before-Dash: x\n- Dash Field: - dashed value\nAfter-Dash: y\n\n"), text...)
+		model = append([]mPara{{Fields: []mField{{Name: "Before-Dash", Lines: []string{"x"}}, {Name: "- Dash Field", Lines: []string{"- dashed value"}}, {Name: "After-Dash", Lines: []string{"y"}}}}}, model...)
+		r.Probe("dash-escaped-line-inside-the-text")
+	}
 	if t.Bool(1, 5, "c11.crfield") {
 		// a carriage return that is not part of a line end is content like any other byte
 		text = append([]byte("Cr-Field: first\rsecond\n more\rtext\n\n"), text...)
@@ -631,5 +639,5 @@ func init() {
 		},
 		Assumptions: []string{"x/crypto/openpgp both signs and verifies: a bug common to both directions is invisible", "must-fail is only demanded where the canonical signed text or the decoded signature provably changed (non-blank text byte to another non-blank byte; base64 character to another base64 character; truncation before the checksum line; replaced signature; keyring without signer); all other faults are checked for soundness only", "fixture keys; signing with a fixed time is byte-deterministic"},
 	})
-	propProbes["C11"] = []string{"signed-text-begins-with-another-clearsigned-document", "insertion-in-signed-text", "stream-grew-after-verification", "carriage-return-inside-a-signed-line", "callers-bufio-reused", "signed-text-without-paragraphs", "two-readers-alive", "reread-with-other-keyrings", "empty-keyring-as-nil-slice", "verification-succeeded", "dash-escaped-line", "substitution-in-signed-text", "substitution-in-signature-armor", "truncation-inside-armor", "nil-keyring", "unsigned-input"}
+	propProbes["C11"] = []string{"signed-text-begins-with-another-clearsigned-document", "insertion-in-signed-text", "stream-grew-after-verification", "carriage-return-inside-a-signed-line", "callers-bufio-reused", "signed-text-without-paragraphs", "two-readers-alive", "reread-with-other-keyrings", "empty-keyring-as-nil-slice", "verification-succeeded", "dash-escaped-line", "dash-escaped-line-inside-the-text", "substitution-in-signed-text", "substitution-in-signature-armor", "truncation-inside-armor", "nil-keyring", "unsigned-input"}
 }
